@@ -350,6 +350,19 @@ int eval_expression(AsmContext *asm_context, int *num)
   int ret = eval_expression(asm_context, answer);
   *num = answer.get_int32();
 
+  // The result is narrowed to 32 bits: accept what fits as either a signed
+  // or an unsigned 32 bit number, anything else would silently lose bits.
+  if (ret == 0 && answer.get_type() == VAR_INT)
+  {
+    const int64_t value = answer.get_int64();
+
+    if (value < -2147483648LL || value > 4294967295LL)
+    {
+      print_error(asm_context, "Constant does not fit in 32 bits");
+      return -1;
+    }
+  }
+
   return ret;
 }
 
